@@ -80,8 +80,8 @@ def collect_conflicting_diffs(path, decisions):
         if d.conflict:
             ld = adjust_patch_level(path, d.common_path, d.local_diff)
             rd = adjust_patch_level(path, d.common_path, d.remote_diff)
-            local_conflict_diffs.extend(ld)
-            remote_conflict_diffs.extend(rd)
+            local_conflict_diffs.extend(ld or ())
+            remote_conflict_diffs.extend(rd or ())
     return local_conflict_diffs, remote_conflict_diffs
 
 
@@ -456,6 +456,14 @@ def resolve_strategy_record_conflicts(base_path, base, decisions):
     strategy = "record-conflict"
 
     decisions.decisions = [push_patch_decision(d, d.common_path[len(base_path):]) for d in decisions]
+
+    # The nbdime-conflicts field is written as a whole below: what a side did
+    # to a record of previous conflicts (adding or removing it) cannot be
+    # applied next to that and becomes part of the recorded conflict
+    for d in decisions:
+        if any(e.key == "nbdime-conflicts"
+               for e in chain(d.local_diff or (), d.remote_diff or ())):
+            d.conflict = True
 
     local_conflict_diffs, remote_conflict_diffs = collect_conflicting_diffs(base_path, decisions)
     #local_diff, remote_diff = collect_diffs(base_path, decisions)
